@@ -163,7 +163,7 @@ func ensureBuilt(tier string) (*buildInfo, error) {
 	for opt := 0; opt < 32; opt++ {
 		cs := reduced
 		if isMain[opt] {
-			cs = append(append([]*schema.Case{}, cases...), evo...)
+			cs = cases
 		}
 		// split by part so that all option sets of one case land in the same worker binary
 		for part := 0; part < nparts; part++ {
@@ -176,12 +176,15 @@ func ensureBuilt(tier string) (*buildInfo, error) {
 			if len(pc) == 0 {
 				continue
 			}
-			batches, dropped := fe.BuildBatches(sup, pc, opt, chk, 48)
+			batches, dropped := fe.BuildBatches(sup, pc, opt, chk, 48, false, part*10000)
+			if part == 0 && isMain[opt] {
+				// the schema-evolution cases reference each other: one atomic batch, in part 0
+				eb, ed := fe.BuildBatches(sup, evo, opt, chk, len(evo), true, 9000)
+				batches = append(batches, eb...)
+				dropped = append(dropped, ed...)
+			}
 			bi.Dropped = append(bi.Dropped, dropped...)
 			for _, b := range batches {
-				b.Index = b.Index*nparts + part
-				// the package name is derived from Index: regenerate the package clause
-				b.Src = bytes.Replace(b.Src, []byte(fmt.Sprintf("package o%db%d\n", opt, (b.Index-part)/nparts)), []byte("package "+b.PkgName()+"\n"), 1)
 				suffix, err := b.WritePackage(genRoot)
 				if err != nil {
 					return nil, err
@@ -275,15 +278,41 @@ func runWorkers(bi *buildInfo, prop, tier string, extra []string) ([]*codeccheck
 			defer os.Remove(prog)
 			merged := &codeccheck.Result{Property: prop, Shard: j.shard, Extra: map[string]int{}, Outcomes: map[string]int{}}
 			bySig := map[string]*codeccheck.Finding{}
-			var skip []string
-			for attempt := 0; attempt < 12; attempt++ {
-				args := append([]string{"-property", prop, "-shard", j.shard, "-tier", tier, "-progress", prog, "-skip", strings.Join(skip, ",")}, extra...)
+			resume := ""
+			for attempt := 0; attempt < 400; attempt++ {
+				args := append([]string{"-property", prop, "-shard", j.shard, "-tier", tier, "-progress", prog, "-resume-after", resume}, extra...)
 				// address-space limit so that a runaway allocation kills the worker, not the sandbox
-				sh := fmt.Sprintf("ulimit -v %d; exec \"$0\" \"$@\"", 8*1024*1024)
+				sh := fmt.Sprintf("ulimit -v %d; exec \"$0\" \"$@\"", 4*1024*1024)
 				cmd := exec.Command("bash", append([]string{"-c", sh, j.bin}, args...)...)
 				var stdout, stderr bytes.Buffer
 				cmd.Stdout, cmd.Stderr = &stdout, &stderr
-				err := cmd.Run()
+				// hang watchdog: a case normally takes milliseconds; no new progress marker for 120 s means the
+				// worker is stuck inside one call (runaway loop) and is killed, which is attributed like a crash
+				hung := false
+				err := cmd.Start()
+				if err == nil {
+					done := make(chan struct{})
+					go func() {
+						lastSize, lastChange := int64(-1), time.Now()
+						for {
+							select {
+							case <-done:
+								return
+							case <-time.After(2 * time.Second):
+							}
+							if fi, e := os.Stat(prog); e == nil && fi.Size() != lastSize {
+								lastSize, lastChange = fi.Size(), time.Now()
+							}
+							if time.Since(lastChange) > 120*time.Second {
+								hung = true
+								cmd.Process.Kill()
+								return
+							}
+						}
+					}()
+					err = cmd.Wait()
+					close(done)
+				}
 				sc := bufio.NewScanner(&stdout)
 				sc.Buffer(make([]byte, 1<<20), 1<<30)
 				var final *codeccheck.Result
@@ -291,6 +320,7 @@ func runWorkers(bi *buildInfo, prop, tier string, extra []string) ([]*codeccheck
 					var line struct {
 						Finding *codeccheck.Finding `json:"finding"`
 						Result  *codeccheck.Result  `json:"result"`
+						Partial *codeccheck.Result  `json:"partial"`
 					}
 					if json.Unmarshal(sc.Bytes(), &line) != nil {
 						continue
@@ -303,7 +333,11 @@ func runWorkers(bi *buildInfo, prop, tier string, extra []string) ([]*codeccheck
 					if line.Result != nil {
 						final = line.Result
 					}
+					if line.Partial != nil && (final == nil || line.Result == nil) {
+						final = line.Partial
+					}
 				}
+				complete := final != nil && err == nil
 				if final != nil {
 					merged.States += final.States
 					merged.Transitions += final.Transitions
@@ -326,7 +360,7 @@ func runWorkers(bi *buildInfo, prop, tier string, extra []string) ([]*codeccheck
 						bySig[f.Sig] = f
 					}
 				}
-				if err == nil && final != nil {
+				if complete {
 					break
 				}
 				// the worker died: attribute the death to the case it was working on and restart without it
@@ -337,7 +371,9 @@ func runWorkers(bi *buildInfo, prop, tier string, extra []string) ([]*codeccheck
 				}
 				se := stderr.String()
 				kind := "crash"
-				if strings.Contains(se, "out of memory") || strings.Contains(se, "cannot allocate memory") {
+				if hung {
+					kind = "hang"
+				} else if strings.Contains(se, "out of memory") || strings.Contains(se, "cannot allocate memory") {
 					kind = "out-of-memory"
 				} else if strings.Contains(se, "stack overflow") || strings.Contains(se, "goroutine stack exceeds") {
 					kind = "stack-overflow"
@@ -346,16 +382,16 @@ func runWorkers(bi *buildInfo, prop, tier string, extra []string) ([]*codeccheck
 					se = se[:600] + "\n...\n" + se[len(se)-600:]
 				}
 				marker, class, _ := strings.Cut(last, "|")
-				if marker == "" || attempt == 11 {
+				if marker == "" || attempt == 399 || marker == resume {
 					crashes[i] = fmt.Sprintf("worker %s shard %s died (%v) and could not be attributed to a case (marker %q); stderr: %s", filepath.Base(j.bin), j.shard, err, last, se)
 					break
 				}
 				sig := fmt.Sprintf("%s|worker-killed|%s|%s", prop, kind, class)
 				if _, ok := bySig[sig]; !ok {
-					bySig[sig] = &codeccheck.Finding{Sig: sig, N: 1, Msg: fmt.Sprintf("the process died with a fatal %s (unrecoverable, under an 8 GiB address-space limit) while working on case %s; stderr: %s", kind, last, se),
+					bySig[sig] = &codeccheck.Finding{Sig: sig, N: 1, Msg: fmt.Sprintf("the process died with a fatal %s (unrecoverable, under a 4 GiB address-space limit) while working on case %s; stderr: %s", kind, last, se),
 						Case: map[string]any{"case": strings.Split(marker, "@")[0], "class": class, "marker": marker}}
 				}
-				skip = append(skip, marker)
+				resume = marker
 				merged.Capped = "a worker was killed; the values of case " + class + " after the fatal one were not explored"
 			}
 			for _, f := range bySig {
